@@ -15,6 +15,11 @@
 //   C04 perseus <pomdp> nB <belief>* v0 h | <vf>        PERSEUS run with its (reproduced) belief list vs perseusRun
 //   C04 ls <pomdp> <vlist prev> | <vlist level> | walked tie nLists {n <belief>*}*   one LinearSupport timestep vs lsStep
 //   C04 pbvi <pomdp> nB <belief>* h | <vf>              PBVI(nB, h, 0)(model, beliefs): whole run vs the Lean model pbviRun
+//   C04 pbviw <pomdp> explicit nB <belief>* h | <vf v0> | <vf>   PBVI warm start: operator()(model, beliefs, v0) (explicit=1, vs pbviRunFrom)
+//                                                        or operator()(model, v0) (explicit=0, clauses only)
+//   C04 mk S A O | <vf> | <vf>                          makeValueFunction(S) and Policy(S,A,O).getValueFunction() vs zeroVF
+//   the vf line carries a 4th section:  | ioStatus nQ {bIdx h a id pOK}*   sampleAction(b,h) / getActionProbability at EVERY stored
+//       horizon; ioStatus 1 = every Policy call of the line went through a Policy written to a stream and loaded back (2 = load failed)
 #include "common/verif.hpp"
 #include "common/gen.hpp"
 #include <AIToolbox/Seeder.hpp>
@@ -31,10 +36,30 @@
 #include <AIToolbox/POMDP/SparseModel.hpp>
 #include <AIToolbox/POMDP/Algorithms/Utils/BeliefGenerator.hpp>
 #include <AIToolbox/MDP/SparseModel.hpp>
+#include <AIToolbox/POMDP/IO.hpp>
+#include <sstream>
 
 using namespace verif;
 namespace P = AIToolbox::POMDP;
 using Model = P::Model<AIToolbox::MDP::Model>;
+
+// a model that offers only the element-wise interface (IsModel but not IsModelEigen): the solvers, the Projecter, the
+// BeliefGenerator and MDP::ValueIteration then take their generic (non-Eigen) branches
+struct PlainModel {
+    const Model & m;
+    size_t getS() const { return m.getS(); }
+    size_t getA() const { return m.getA(); }
+    size_t getO() const { return m.getO(); }
+    double getDiscount() const { return m.getDiscount(); }
+    double getTransitionProbability(size_t s, size_t a, size_t s1) const { return m.getTransitionProbability(s, a, s1); }
+    double getExpectedReward(size_t s, size_t a, size_t s1) const { return m.getExpectedReward(s, a, s1); }
+    double getObservationProbability(size_t s1, size_t a, size_t o) const { return m.getObservationProbability(s1, a, o); }
+    bool isTerminal(size_t s) const { return m.isTerminal(s); }
+    std::tuple<size_t, double> sampleSR(size_t s, size_t a) const { return m.sampleSR(s, a); }
+    std::tuple<size_t, size_t, double> sampleSOR(size_t s, size_t a) const { return m.sampleSOR(s, a); }
+};
+static_assert(P::IsModel<PlainModel>);
+static_assert(!P::IsModelEigen<PlainModel>);
 
 static void putEntry(Line & l, const P::VEntry & e) {
     putVector(l, e.values); l << e.action; l.nats(e.observations);
@@ -66,9 +91,26 @@ static bool dfs(const P::Policy & pol, const P::ValueFunction & vf, size_t O, si
 }
 
 static void emitVF(const char * comp, unsigned hReq, const PomdpTables & pt, const P::ValueFunction & vf,
-                   const std::vector<AIToolbox::Vector> & beliefs) {
+                   const std::vector<AIToolbox::Vector> & beliefs, int useIO = 0) {
     Line l; l << "C04" << "vf" << comp << hReq; putPomdp(l, pt); l << "|"; putVF(l, vf); l << "|";
-    P::Policy pol(pt.S, pt.A, pt.O, vf);
+    P::Policy pol0(pt.S, pt.A, pt.O, vf);
+    // optionally every Policy call below goes through a Policy that was written to a stream and loaded back
+    // (the documented way to keep a policy: Policy(S,A,O) then operator>>); the loader rebuilds every link
+    P::Policy loaded(pt.S, pt.A, pt.O);
+    int ioStatus = 0;
+    if (useIO) {
+        std::stringstream st; st << pol0;
+        if (useIO == 2) st << "trailing 1 2 3\n";           // "other things can also be put on the stream"
+        st >> loaded;
+        ioStatus = (!st.fail() && loaded.getH() + 1 == vf.size()) ? 1 : 2;
+        bool same = ioStatus == 1;
+        for (size_t h = 1; same && h < vf.size(); ++h) {
+            same = loaded.getValueFunction()[h].size() == vf[h].size();
+            for (size_t i = 0; same && i < vf[h].size(); ++i) same = (loaded.getValueFunction()[h][i] == vf[h][i]);
+        }
+        std::printf("#stat policy_io:%s 1\n", ioStatus == 1 ? (same ? "identical" : "loaded_differs") : "load_failed");
+    }
+    const P::Policy & pol = ioStatus == 1 ? loaded : pol0;
     size_t H = vf.size() - 1;
     bool topOk = vf.back().size() > 0;
     l << (size_t)(topOk ? beliefs.size() : 0);
@@ -87,8 +129,27 @@ static void emitVF(const char * comp, unsigned hReq, const PomdpTables & pt, con
     }
     l << complete << (size_t)(seq.size() / 2);
     for (auto x : seq) l << x;
+    // sampleAction(b, h) and getActionProbability(b, a, h) at EVERY stored horizon h <= H (h = 0: "a valid, non-specified action")
+    l << "|" << ioStatus;
+    std::vector<std::array<size_t, 5>> qs;
+    bool allOk = true; for (const auto & w : vf) allOk = allOk && !w.empty();
+    if (allOk) for (size_t h = 0; h <= H; ++h) {
+        for (size_t bi = 0; bi < beliefs.size(); ++bi) {
+            if (h < H && bi != (h % beliefs.size()) && bi + 1 != beliefs.size()) continue;     // two beliefs per lower horizon, all at the top
+            const auto & b = beliefs[bi];
+            auto [a, id] = pol.sampleAction(b, (unsigned)h);
+            bool pOK = true;
+            for (size_t x = 0; x < pt.A; ++x) {
+                pOK = pOK && pol.getActionProbability(b, x, (unsigned)h) == (x == a ? 1.0 : 0.0);
+                if (h == H) pOK = pOK && pol.getActionProbability(b, x) == (x == a ? 1.0 : 0.0);
+            }
+            qs.push_back({bi, h, a, id, (size_t)pOK});
+        }
+    }
+    l << (size_t)qs.size();
+    for (auto & q : qs) for (auto x : q) l << x;
     l.emit();
-    std::printf("#stat comp:%s 1\n#stat H:%zu 1\n#stat top:%zu 1\n", comp, H, std::min<size_t>(vf.back().size(), 99));
+    std::printf("#stat comp:%s 1\n#stat H:%zu 1\n#stat top:%zu 1\n#stat S:%zu 1\n#stat A:%zu 1\n#stat O:%zu 1\n", comp, H, std::min<size_t>(vf.back().size(), 99), pt.S, pt.A, std::min<size_t>(pt.O, 9));
 }
 
 static std::vector<AIToolbox::Vector> someBeliefs(Rng & rng, size_t S, size_t n) {
@@ -137,6 +198,12 @@ static P::ValueFunction solveWith(Rng & rng, int which, const M & model, const P
                 return std::get<1>(s(model, bl));
             }
             if (!fewBeliefs && rng.coin()) { auto bl = someBeliefs(rng, pt.S, pt.S + 1 + rng.below(6)); return std::get<1>(s(model, bl)); }
+            if (h >= 2 && rng.coin()) {               // two stages: h1 levels, then the rest warm-started through operator()(model, v)
+                unsigned h1 = 1 + (unsigned)rng.below(h - 1);
+                P::PBVI s1(8, h1, 0.0); auto v1 = std::get<1>(s1(model));
+                P::PBVI s2(8, h - h1, tol); std::printf("#stat pbvi_two_stage 1\n");
+                return std::get<1>(s2(model, v1));
+            }
             return std::get<1>(s(model));
         }
         case 4: {
@@ -148,14 +215,16 @@ static P::ValueFunction solveWith(Rng & rng, int which, const M & model, const P
     }
 }
 
-static void runSolver(Rng & rng, int which, const PomdpTables & pt, unsigned h, double tol = 0.0, bool sparse = false, size_t fewBeliefs = 0) {
+static void runSolver(Rng & rng, int which, const PomdpTables & pt, unsigned h, double tol = 0.0, int kind = 0, size_t fewBeliefs = 0) {
     Model model = toDense(pt);
     AIToolbox::Seeder::setRootSeed((unsigned)rng.below(1u << 30));
     P::ValueFunction vf;
-    if (sparse) { SparseModel sm(model); vf = solveWith(rng, which, sm, pt, h, tol, fewBeliefs); std::printf("#stat sparse 1\n"); }
+    if (kind == 1) { SparseModel sm(model); vf = solveWith(rng, which, sm, pt, h, tol, fewBeliefs); std::printf("#stat sparse 1\n"); }
+    else if (kind == 2) { PlainModel pm{model}; vf = solveWith(rng, which, pm, pt, h, tol, fewBeliefs); std::printf("#stat plain_model 1\n"); }
     else vf = solveWith(rng, which, model, pt, h, tol, fewBeliefs);
     if (fewBeliefs) std::printf("#stat few_beliefs:%zu 1\n#stat long_horizon:%u 1\n", fewBeliefs, h);
-    emitVF(kSolvers[which], h, pt, vf, someBeliefs(rng, pt.S, pt.S + 4));
+    int useIO = rng.coin(1, 3) ? (rng.coin(1, 4) ? 2 : 1) : 0;
+    emitVF(kSolvers[which], h, pt, vf, someBeliefs(rng, pt.S, pt.S + 4), useIO);
 }
 
 // "ugly" tables: non-dyadic probabilities (k/n rounded to double, rows summing to 1 only up to rounding), discount 0.95 / 0.9,
@@ -229,7 +298,8 @@ static void emitCS(Rng & rng) {
 // Projecter::operator()(w, a) on a random previous list, then crossSumBestAtBelief(b, row, a) on the (optionally
 // shuffled-by-extractDominated) row: the two kernels every solver assembles its entries from.
 static void emitPJ(Rng & rng) {
-    size_t S = 2 + rng.below(3), A = 1 + rng.below(3), O = 1 + rng.below(4);
+    size_t S = 1 + rng.below(4), A = 1 + rng.below(3), O = 1 + rng.below(4);
+    if (rng.coin(1, 4)) O = 5 + rng.below(4);              // O >> S
     auto pt = randomPomdp(rng, S, A, O);
     Model model = toDense(pt);
     size_t n = 1 + rng.below(4);
@@ -243,6 +313,10 @@ static void emitPJ(Rng & rng) {
     size_t a = rng.below(A);
     P::Projecter<Model> proj(model);
     auto row = proj(w, a);
+    if (rng.coin(1, 3)) {                                  // the element-wise (non-Eigen) branch of the Projecter
+        PlainModel pm{model}; P::Projecter<PlainModel> pproj(pm);
+        row = pproj(w, a); std::printf("#stat pj_plain_model 1\n");
+    }
     { Line l; l << "C04" << "pj"; putPomdp(l, pt); putVList(l, w); l << a << "|" << (size_t)O;
       for (size_t o = 0; o < O; ++o) putVList(l, row[o]);
       l.emit(); }
@@ -432,6 +506,52 @@ static void emitPBVI(Rng & rng) {
     l << h << "|"; putVF(l, vf); l.emit();
 }
 
+// PBVI warm start: operator()(model, beliefs, v0) / operator()(model, v0).  v0 is (0,1) what another solver returned
+// (consistent; PERSEUS' has a non-zero terminal list), (2) an ARBITRARY stack of lists (links may even be out of range:
+// PBVI must keep it verbatim and only read its last list), (3) a single non-zero terminal list with several entries.
+static void emitPBVIW(Rng & rng) {
+    size_t S = 1 + rng.below(4), A = 1 + rng.below(3), O = rng.coin() ? 2 : (rng.coin() ? 1 : 3);
+    unsigned h = 1 + (unsigned)rng.below(3);
+    auto pt = randomPomdp(rng, S, A, O);
+    Model model = toDense(pt);
+    int mode = (int)rng.below(4);
+    P::ValueFunction v0;
+    AIToolbox::Seeder::setRootSeed((unsigned)rng.below(1u << 30));
+    if (mode == 0) { P::IncrementalPruning s0(1 + (unsigned)rng.below(2), 0.0); v0 = std::get<1>(s0(model)); }
+    else if (mode == 1) { P::PERSEUS s0(4, 1 + (unsigned)rng.below(3), 0.0); v0 = std::get<1>(s0(model, pt.R.minCoeff())); }
+    else {
+        size_t L = mode == 3 ? 1 : 1 + rng.below(3);
+        for (size_t k = 0; k < L; ++k) {
+            P::VList w; size_t n = 1 + rng.below(3);
+            for (size_t i = 0; i < n; ++i) {
+                P::VEntry e; e.values.resize(S);
+                for (size_t s = 0; s < S; ++s) e.values[s] = (double)rng.range(-16, 16) / 4.0;
+                e.action = rng.below(A);
+                if (k > 0) for (size_t o = 0; o < O; ++o) e.observations.push_back(rng.below(5));
+                w.push_back(e);
+            }
+            v0.push_back(w);
+        }
+    }
+    bool expl = rng.coin(3, 4);
+    auto bl = someBeliefs(rng, S, 1 + rng.below(S + 3));
+    if (rng.coin(1, 3)) bl.erase(bl.begin(), bl.begin() + std::min<size_t>(bl.size() - 1, S));
+    P::PBVI solver(expl ? bl.size() : 6, h, 0.0);
+    P::ValueFunction vf = expl ? std::get<1>(solver(model, bl, v0)) : std::get<1>(solver(model, v0));
+    if (!expl) bl.clear();
+    Line l; l << "C04" << "pbviw"; putPomdp(l, pt); l << expl << (size_t)bl.size();
+    for (const auto & b : bl) putVector(l, b);
+    l << h << "|"; putVF(l, v0); l << "|"; putVF(l, vf); l.emit();
+    std::printf("#stat pbviw_mode:%d 1\n#stat pbviw_explicit:%d 1\n#stat pbviw_v0_levels:%zu 1\n", mode, (int)expl, v0.size());
+}
+
+static void emitMK(Rng & rng) {
+    size_t S = 1 + rng.below(6), A = 1 + rng.below(3), O = 1 + rng.below(3);
+    auto v = P::makeValueFunction(S);
+    P::Policy pol(S, A, O);
+    Line l; l << "C04" << "mk" << S << A << O << "|"; putVF(l, v); l << "|"; putVF(l, pol.getValueFunction()); l.emit();
+}
+
 // ---------------------------------------------------------------- case table
 static const long kFixed = 16;
 long verif::verif_ncases(const std::string & tier) { return kFixed + (tier == "thorough" ? 25000 : 900); }
@@ -445,14 +565,18 @@ void verif::verif_case(Rng & rng, long idx, const std::string & tier) {
         for (size_t nB : {2, 3, 20}) emitPERSEUSOn(regressingTables(), nB, 8, 7);
         return;
     }
-    if (idx >= 8 && idx < kFixed) { for (int k = 0; k < 12; ++k) { emitXD(rng); emitPR(rng); emitCS(rng); emitPJ(rng); emitPBVI(rng); emitWV(rng); emitPERSEUS(rng); emitLS(rng); } return; }
+    if (idx >= 8 && idx < kFixed) { for (int k = 0; k < 12; ++k) { emitXD(rng); emitPR(rng); emitCS(rng); emitPJ(rng); emitPBVI(rng); emitWV(rng); emitPERSEUS(rng); emitLS(rng); emitPBVIW(rng); emitPBVIW(rng); emitMK(rng); } return; }
     long r = idx - kFixed;
     int which = (int)(r % 6);
     size_t S = 2 + rng.below(3), A = 1 + rng.below(3), O = 1 + rng.below(3);
     unsigned h = 1 + (unsigned)rng.below(4);
+    if (rng.coin(1, 10)) S = 1;                                               // a single state: beliefs are the point (1)
     if (which == 0 && rng.coin(1, 4)) O = 4 + rng.below(4);                   // longer merge schedules for IncrementalPruning
+    if (which != 0 && which != 2 && rng.coin(1, 8)) O = 5 + rng.below(4);     // O >> S for the point-based solvers, Witness and QMDP
     if (O >= 4) { h = std::min(h, 2u); S = std::min<size_t>(S, 3); }
-    bool ugly = rng.coin(1, 5), sparse = rng.coin(1, 5);
+    if (which == 1 && O >= 5) { O = std::min<size_t>(O, 6); S = std::min<size_t>(S, 2); A = std::min<size_t>(A, 2); }   // Witness enumerates variations: keep it cheap
+    bool ugly = rng.coin(1, 5);
+    int sparse = rng.coin(1, 5) ? 1 : (rng.coin(1, 4) ? 2 : 0);             // 1 = SparseModel, 2 = element-wise (non-Eigen) model
     // LinearSupport enumerates polytope vertices naively: keep its instances small (its cost is not this property's subject)
     if (which == 2) { if (ugly) { S = std::min<size_t>(S, 3); h = std::min(h, 2u); } else if (S == 4) h = std::min(h, 3u); }
     auto pt = ugly ? uglyPomdp(rng, S, A, O) : randomPomdp(rng, S, A, O);
@@ -463,10 +587,11 @@ void verif::verif_case(Rng & rng, long idx, const std::string & tier) {
     if ((which == 3 || which == 4) && rng.coin(1, 2)) {
         fewBeliefs = 1 + rng.below(3); h = 4 + (unsigned)rng.below(5); tol = 0.0;
         if (O == 3) h = std::min(h, 6u);
+        if (O >= 4) h = std::min(h, 3u);                                      // O^h histories are replayed
     }
     if (std::getenv("VERIF_DEBUG")) std::fprintf(stderr, "case %ld: %s S=%zu A=%zu O=%zu h=%u ugly=%d sparse=%d tol=%g\n", idx, kSolvers[which], S, A, O, h, (int)ugly, (int)sparse, tol);
     runSolver(rng, which, pt, h, tol, sparse, fewBeliefs);
-    if (r % 10 == 0) { emitXD(rng); emitPR(rng); emitCS(rng); emitPJ(rng); emitPBVI(rng); emitWV(rng); emitPERSEUS(rng); emitPERSEUS(rng); emitLS(rng); }
+    if (r % 10 == 0) { emitXD(rng); emitPR(rng); emitCS(rng); emitPJ(rng); emitPBVI(rng); emitWV(rng); emitPERSEUS(rng); emitPERSEUS(rng); emitLS(rng); emitPBVIW(rng); emitPBVIW(rng); }
 }
 
 VERIF_MAIN
